@@ -25,7 +25,7 @@ import (
 type params struct {
 	CA, SA, CE, SE int // indexes into hs.Levels
 	Shape          int
-	Cipher         int   // 0 common AES, 1 none in common, 2 server [3DES,AES] vs client [AES], 3 both [AES,BLOWFISH,3DES]
+	Cipher         int   // 0 common AES, 1 none in common, 2 server [3DES,AES] vs client [AES], 3 both [AES,BLOWFISH,3DES], 4 server [BLOWFISH,AES] vs client [AES,BLOWFISH], 5 both [BLOWFISH]
 	Reuse          []int `json:"reuse,omitempty"` // config-reuse scenario: indices into reuseServerLists, one per successive handshake
 	Cmd            int   // command, or -1 for auth-only
 }
@@ -57,6 +57,10 @@ var shapes = []shape{
 	// the SSL method between two cedar endpoints: certificate on the server, CA on the client
 	{"ssl", []security.AuthMethod{security.AuthSSL}, []security.AuthMethod{security.AuthSSL}, 1, 0},
 	{"ssl-after-unusable", []security.AuthMethod{TOK, security.AuthSSL}, []security.AuthMethod{TOK, security.AuthSSL}, 1, 0},
+	// two methods in a row that cannot complete here (not implemented; no credentials) ahead of the usable one:
+	// the retry logic has to get past both
+	{"two-unusable-first", []security.AuthMethod{PW, security.AuthKerberos, CTB}, []security.AuthMethod{PW, security.AuthKerberos, CTB}, 1, 0},
+	{"two-unusable-first-reordered", []security.AuthMethod{security.AuthKerberos, CTB, PW}, []security.AuthMethod{PW, security.AuthKerberos, CTB}, 1, 0},
 	{"token-listed-not-held", []security.AuthMethod{TOK}, []security.AuthMethod{TOK}, -1, 0},
 	{"token-held", []security.AuthMethod{TOK}, []security.AuthMethod{TOK}, 1, 1},
 }
@@ -97,6 +101,12 @@ func run(s *kernel.Sim, c *scen.Case) {
 		sciph = []security.CryptoMethod{security.Crypto3DES, security.CryptoAES}
 	case 3: // several common ciphers, the preferred (and only implemented) one first
 		cciph = []security.CryptoMethod{security.CryptoAES, security.CryptoBlowfish, security.Crypto3DES}
+		sciph = cciph
+	case 4: // AES is common, but the first common cipher in the server's order is one cedar cannot run
+		cciph = []security.CryptoMethod{security.CryptoAES, security.CryptoBlowfish}
+		sciph = []security.CryptoMethod{security.CryptoBlowfish, security.CryptoAES}
+	case 5: // the only common cipher is one cedar cannot run
+		cciph = []security.CryptoMethod{security.CryptoBlowfish}
 		sciph = cciph
 	}
 	ccfg := hs.Cfg(ca, ce, sh.c, cciph, p.Cmd)
@@ -166,6 +176,11 @@ func run(s *kernel.Sim, c *scen.Case) {
 	encClash := (ce == R && se == N) || (ce == N && se == R)
 	ambiguous := sh.usable == -1 && (authReq || ((ca == P || sa == P) && ca != N && sa != N))
 	mustFail := authClash || encClash || (authReq && sh.usable == 0) || (encReq && !commonCipher)
+	if p.Cipher >= 4 && encReq && !mustFail {
+		// a cipher both list but cedar cannot run comes first: whether a REQUIRED side may then fail
+		// depends on reading "supported" as listed or usable - agreement only (the statement leaves it open)
+		ambiguous = true
+	}
 	mustAuth := !mustFail && sh.usable == 1 && (authReq || ((ca == P || sa == P) && ca != N && sa != N))
 	mustEnc := !mustFail && encReq
 	cell := fmt.Sprintf("auth %s/%s enc %s/%s methods %s cipher=%d cmd=%d", hs.LevelName(ca), hs.LevelName(sa), hs.LevelName(ce), hs.LevelName(se), sh.name, p.Cipher, p.Cmd)
@@ -173,6 +188,10 @@ func run(s *kernel.Sim, c *scen.Case) {
 		return fmt.Sprintf("%s/%s/auth=%s-%s/enc=%s-%s", kind, sh.name, hs.LevelName(ca), hs.LevelName(sa), hs.LevelName(ce), hs.LevelName(se))
 	}
 	s.Note("%s: client err=%v server err=%v blocked=%v", cell, cerr, serr, s.BlockedAt)
+	if s.Overrun {
+		s.Violate("handshake-does-not-terminate", sig("spin"), fmt.Sprintf("%s: after %d scheduler steps the two honest ends were still exchanging handshake messages (client sent %d bytes, server %d)", cell, s.Step, len(pr.CE.SentBytes()), len(pr.SE.SentBytes())))
+		return
+	}
 	if s.Quiescent && cerr == nil && serr == nil && (cn == nil || sn == nil) {
 		s.Violate("handshake-hung", sig("hang"), cell+": neither side returned; blocked at "+fmt.Sprint(s.BlockedAt))
 		return
@@ -212,6 +231,11 @@ func run(s *kernel.Sim, c *scen.Case) {
 	}
 	if cn.Encryption != sn.Encryption || pr.CS.IsEncrypted() != pr.SS.IsEncrypted() {
 		s.Violate("ends-disagree-on-encryption", sig("agree-enc"), fmt.Sprintf("%s: client reports Encryption=%v (stream %v), server %v (stream %v)", cell, cn.Encryption, pr.CS.IsEncrypted(), sn.Encryption, pr.SS.IsEncrypted()))
+		return
+	}
+	if cn.Encryption != pr.CS.IsEncrypted() || sn.Encryption != pr.SS.IsEncrypted() {
+		// both ends must report the encryption OUTCOME: two ends agreeing on a flag that is not what their streams do report nothing
+		s.Violate("reported-encryption-is-not-the-outcome", sig("outcome-enc"), fmt.Sprintf("%s: client reports Encryption=%v on a stream with encryption %v; server reports %v on a stream with encryption %v", cell, cn.Encryption, pr.CS.IsEncrypted(), sn.Encryption, pr.SS.IsEncrypted()))
 		return
 	}
 	if cn.SessionId == "" || cn.SessionId != sn.SessionId {
@@ -325,7 +349,7 @@ var scenarios = []*scen.Scenario{
 	{Name: "matrix", Enumerated: true, Gen: func(g *scen.Gen) {
 		seed := g.Seed * 104729
 		for shi := range shapes {
-			for cipher := 0; cipher < 4; cipher++ {
+			for cipher := 0; cipher < 6; cipher++ {
 				if cipher >= 2 && shapes[shi].name != "equal-claimtobe" && shapes[shi].name != "disjoint" {
 					continue // the longer cipher lists run with one authenticating and one non-authenticating shape
 				}
